@@ -44,7 +44,7 @@ WhyFrames(e) ==
 
 WhyAminoName(e) ==
   IF e.b \notin Byte THEN "ok"
-  ELSE IF e.b \notin NameDomain THEN (IF e.panic THEN "ok" ELSE "aminoname-no-panic-on-foreign-byte")
+  ELSE IF e.b \notin AminoNameBytes THEN (IF e.panic THEN "ok" ELSE "aminoname-no-panic-on-foreign-byte")
   ELSE IF e.panic THEN "aminoname-panic-on-amino-letter"
   ELSE IF Len(e.code) = 0 \/ Len(e.name) = 0 THEN "aminoname-empty"
   ELSE "ok"
